@@ -341,9 +341,15 @@ async fn finalize_artifact(
     stored_bytes: u64,
     bytes_total: u64,
 ) -> Option<StreamArtifactRef> {
-    let (Some(_file), Some(tmp_path), Some(hasher)) = (file, tmp_path, hasher) else {
+    let (Some(mut file), Some(tmp_path), Some(hasher)) = (file, tmp_path, hasher) else {
         return None;
     };
+    // tokio's File completes a write in the background; the bytes must be in the file before it is published
+    if file.flush().await.is_err() {
+        let _ = tokio::fs::remove_file(&tmp_path).await;
+        return None;
+    }
+    drop(file);
 
     let digest = hasher.finalize();
     let id = hex::encode(digest);
